@@ -62,6 +62,9 @@ struct Atoms {
       99999.5, 0.001953125, 5e-5, 123e-20, 7e-10, 1234567890123456789., 12345678901234567890., 1e19, 1.8446744073709552e19,
       4.35, 0.57, 1.005, 2.675, 1e-7, 17.000000000000004, 0.7071067811865476, 1.4142135623730951 };
     for (double d : pos) { Add(d); Add(-d); }
+    // powers of two (the shortest-digits printer treats them specially: the gap below is half the gap above)
+    for (int e = -100; e <= 70; ++e) { Add(std::ldexp(1.0, e)); if (e % 4 == 0) Add(-std::ldexp(1.0, e)); }
+    for (int e = -1070; e <= 1020; e += 10) { Add(std::ldexp(1.0, e)); Add(std::ldexp(1.0, e + 3)); }
     nfixed = (int)v.size();
     std::mt19937_64 rng(seed * 2654435761u + 12345);
     while ((int)v.size() < n) {
